@@ -55,12 +55,12 @@ PROPS = {
         dict(kind="macro", profile="C04", preds="limit", mask="nkeys,qset", quick=300, thorough=8000),
         dict(kind="macro", profile="C04R", preds="limit", mask="nkeys,qset", quick=200, thorough=6000)]),
     "C05": dict(theorems=["Props/C05.v", "parts/memest/coq|CLM|Props_C05_memest.v"], parts=[
-        dict(kind="core", profile="C05", mask="keys,qset,size", preds="c05,wf", quick=Q, thorough=T),
+        dict(kind="core", profile="C05", mask="keys,queue,size", preds="c05,c07,c08,wf", quick=Q, thorough=T),
         dict(kind="ext", name="memest", quick=1500, thorough=30000, env={"MEMEST_TARGET": BUILD + "/target"}),
         dict(kind="macro", profile="C05", preds="mem", mask="keys,qset", quick=300, thorough=8000)]),
     "C06": dict(theorems=["Props/C06.v"], parts=[
         dict(kind="core", profile="C06", mask="out,keys,qset,born,stats", preds="c06", quick=Q, thorough=T),
-        dict(kind="macro", profile="C06", preds="ttl,limit", mask="ret,keys,born", quick=300, thorough=8000)]),
+        dict(kind="macro", profile="C06", preds="ttl,limit,c20", mask="ret,keys,born", quick=300, thorough=8000)]),
     "C07": dict(theorems=["Props/C07.v"], parts=[
         dict(kind="core", profile="C07", mask="keys,queue", preds="c07", quick=Q, thorough=T),
         dict(kind="macro", profile="C07", preds="order,limit", mask="keys,queue", quick=300, thorough=8000)]),
@@ -610,7 +610,7 @@ def corpus_table():
         w = line.split()
         if w and w[0] == "FN":
             t[int(w[1])] = dict(name=w[2], fl=w[3], pol=w[4], limit=None if w[5] == "-" else int(w[5]),
-                                mem=None if w[7] == "-" else int(w[7]), is_result=w[10] == "1", ret=int(w[13]) // 10)
+                                mem=None if w[7] == "-" else int(w[7]), is_result=w[10] == "1", ret=int(w[13]) // 100)
     return t
 
 
@@ -769,6 +769,11 @@ def check_sched_case(lines, table):
                     if left:
                         problems.append("STALE f%s: the invalidation (%s) has returned but entries stored before it are still cached: keys %s"
                                         % (parts[0], " ".join(b_op), left))
+    if head[1].startswith("xr-"):
+        qs = [l for l in lines if l.startswith("Q ")]
+        rb = [l for l in lines if l.startswith("RB ")]
+        if qs and rb and "exec=1" in rb[0] and "exec=1" in qs[-1]:
+            problems.append("MISS f%d: the fresh value that thread B stored for the expired key is not served afterwards (%s)" % (f, qs[-1]))
     for l in ds_probes[-2:]:
         if "exec=1" in l:
             problems.append("MISS f%d: after two overlapping first calls for one key, a key that was stored is not served although the cache "
